@@ -6,6 +6,7 @@ import ast
 import re
 
 from ..core import AnalysisError, FuncInfo, call_name, unparse, walk_no_nested
+from ..pattern import _parse, body_is, find, find_expr, has, has_expr, m_node
 from ..report import Ctx
 
 MODS = ['mdcev.mdcev', 'mdcev.gamma_profile', 'mdcev.translated', 'mdcev.generalized', 'mdcev.non_monotonic']
@@ -208,18 +209,19 @@ def run(ctx: Ctx) -> None:
         raise AnalysisError(f'C18.R1: only {n_sub} typed subscripts / {n_cmp} typed comparisons found in the MDCEV modules')
     M = prog.cls('mdcev.mdcev', 'Mdcev')
     init = M.methods['__init__']
-    t = unparse(init.node)
-    ok = 'self.index_to_key: list[int] = [key for key in self.alternatives]' in t and 'self.key_to_index: dict[int, int] = {key: index for index, key in enumerate(self.index_to_key)}' in t
+    ok = (has(init.node, 'self.index_to_key = [_K for _K in self.alternatives]') or has(init.node, 'self.index_to_key = list(self.alternatives)')) \
+        and has(init.node, 'self.key_to_index = {_K: _I for _I, _K in enumerate(self.index_to_key)}')
     ctx.add('C18.R1', 'Mdcev.__init__:tables', ok, init, 'key_to_index is built by enumerating index_to_key: the two tables are inverse of each other' if ok else 'key_to_index is no longer the inverse of index_to_key', 'tables')
     og = M.methods['outside_good_index']
     ok = 'return self.key_to_index[self.outside_good_key]' in unparse(og.node)
     ctx.add('C18.R1', 'Mdcev.outside_good_index', ok, og, 'position of the outside good = key_to_index[its label]' if ok else 'outside_good_index changed', 'og')
     su = M.methods['sum_of_utilities']
-    t = unparse(su.node)
-    ok = 'for index, key in enumerate(self.index_to_key)' in t and 'the_id=key' in t and 'the_consumption=float(consumptions[index])' in t and 'epsilon=float(epsilon[index])' in t
+    ok = has_expr(su.node, '[self.utility_one_alternative(the_id=_K, the_consumption=float(consumptions[_I]), epsilon=float(epsilon[_I]), one_observation=data_row) for _I, _K in enumerate(self.index_to_key)]')
     ctx.add('C18.R1', 'Mdcev.sum_of_utilities', ok, su, 'position i of consumptions / epsilon belongs to label index_to_key[i]' if ok else 'pairing of positions and labels in sum_of_utilities changed', 'sum')
     bf = M.methods['forecast_bruteforce_one_draw']
-    ok = 'self.index_to_key[index]: optimization_result.x[index] for index in range(number_of_alternatives)' in unparse(bf.node)
+    ok = False
+    for b in find_expr(bf.node, '{self.index_to_key[_I]: _RES.x[_I] for _I in range(_N)}'):
+        ok = has(bf.node, f'{b["_N"]} = len(self.alternatives)') and any(isinstance(a, ast.Assign) and unparse(a.targets[0]) == b['_RES'] and isinstance(a.value, ast.Call) and call_name(a.value) == 'minimize' for a in walk_no_nested(bf.node))
     ctx.add('C18.R1', 'Mdcev.forecast_bruteforce_one_draw:result', ok, bf, 'the optimiser\'s vector is mapped back to labels through index_to_key' if ok else 'mapping of the brute-force solution to labels changed', 'bf')
 
 
